@@ -42,3 +42,23 @@ Proof. exact Proofs.SeriesAsmP.time_series_example. Qed.
 Theorem series_misaligned_without_it : exists (ps : list (list (str * N))) k vs,
   d_get k (assemble ps) = Some vs /\ length vs <> length ps.
 Proof. exact Proofs.SeriesAsmP.series_misaligned_without_it. Qed.
+
+(* ---------- the plotted curves (AbstractInventory.plot / InventoryHP.plot): one curve per displayed nuclide, in the
+   requested order, whose i-th value is the read-out of that nuclide in the inventory decayed to the i-th time point *)
+Theorem plot_curves_pointwise : forall (T V : Type) (times : list T) (readout_at : T -> list (str * V)) (display : list str) curves,
+  plot_curves times readout_at display = Some curves ->
+  map fst curves = display /\
+  forall j rad vs, nth_error curves j = Some (rad, vs) ->
+    length vs = length times /\ map Some vs = map (fun t => d_get rad (readout_at t)) times.
+Proof. exact Proofs.SeriesAsmP.plot_curves_pointwise. Qed.
+
+(* the plot is produced (no KeyError) exactly when every displayed nuclide is reported at every time point *)
+Theorem plot_curves_defined : forall (T V : Type) (times : list T) (readout_at : T -> list (str * V)) (display : list str),
+  (forall t rad, In t times -> In rad display -> d_get rad (readout_at t) <> None) <->
+  plot_curves times readout_at display <> None.
+Proof. exact Proofs.SeriesAsmP.plot_curves_defined. Qed.
+
+Example plot_curves_example :
+  plot_curves [1%N; 2%N] (fun t => [([72%N], (t * 10)%N); ([74%N], (t * 10 + 1)%N)]) [[74%N]; [72%N]]
+  = Some [([74%N], [11%N; 21%N]); ([72%N], [10%N; 20%N])].
+Proof. exact Proofs.SeriesAsmP.plot_curves_example. Qed.
